@@ -778,7 +778,11 @@ enum BoundKind {
     Activity,
 }
 
-fn bound_kind_of(variable: &str, clauses: &[WhereClause]) -> Option<BoundKind> {
+/// Every kind the WHERE block binds `variable` to, in source order. One branch
+/// of a UNION or an OPTIONAL may bind a kind the others do not, and the target
+/// can come out of any of them.
+fn bound_kinds_of(variable: &str, clauses: &[WhereClause]) -> Vec<BoundKind> {
+    let mut kinds = Vec::new();
     for clause in clauses {
         let found = match clause {
             WhereClause::Assertion { variable: v, .. } if v == variable => {
@@ -791,15 +795,14 @@ fn bound_kind_of(variable: &str, clauses: &[WhereClause]) -> Option<BoundKind> {
                 variable: Some(v), ..
             } if v == variable => Some(BoundKind::Proposition),
             WhereClause::Not(inner) | WhereClause::Optional(inner) | WhereClause::Union(inner) => {
-                bound_kind_of(variable, inner)
+                kinds.extend(bound_kinds_of(variable, inner));
+                None
             }
             _ => None,
         };
-        if found.is_some() {
-            return found;
-        }
+        kinds.extend(found);
     }
-    None
+    kinds
 }
 
 /// Rejects the UPDATEs an engine must never be asked to perform.
@@ -808,20 +811,24 @@ fn guard_update(statement: &UpdateStatement) -> Result<(), &'static str> {
         ElementRef::Handle(name) => Some(name.as_str()),
         _ => None,
     };
-    let kind = match (target_var, &statement.where_clauses) {
-        (Some(var), Some(clauses)) => bound_kind_of(var, clauses),
-        _ => None,
+    let kinds = match (target_var, &statement.where_clauses) {
+        (Some(var), Some(clauses)) => bound_kinds_of(var, clauses),
+        _ => Vec::new(),
     };
 
     for action in &statement.actions {
         match action {
             UpdateAction::SetFields(assignments) => {
                 for (field, _) in assignments {
-                    guard_immutable_field(field, kind)?;
+                    for kind in &kinds {
+                        guard_immutable_field(field, Some(*kind))?;
+                    }
                 }
             }
             UpdateAction::SetStructural(_) | UpdateAction::UnsetStructural(_) => {
-                guard_structural_mutation(kind)?
+                for kind in &kinds {
+                    guard_structural_mutation(Some(*kind))?;
+                }
             }
             _ => {}
         }
